@@ -89,6 +89,17 @@ func (x *XSpec) visit(sc *Scenario, obs map[string]int) (func(prefix []int) sche
 func (x *XSpec) Main() {
 	run := x.Run
 	runtime.GOMAXPROCS(1)
+	if only := os.Getenv("VERIF_ONLY"); only != "" && run.ReplayPath == "" {
+		// development aid: explore only the scenarios whose name contains the given text
+		var keep []*Scenario
+		for _, sc := range x.Scenarios {
+			if strings.Contains(sc.Name, only) {
+				keep = append(keep, sc)
+			}
+		}
+		x.Scenarios = keep
+		x.FreeSet = ""
+	}
 	if run.ReplayPath != "" {
 		var c struct {
 			Scenario string `json:"scenario"`
